@@ -7,6 +7,9 @@
 
      the result of sms.Unmarshal depends on the octets only, not on how the reader chunks them,
 
+   proved for the whole decoder: the second half of this file writes sms.Unmarshal over this reader ([unmarshal_gen_on],
+   [unmarshal_reader]) and Proofs/TpduReaderCompose.v shows it equal to the list decoder for every schedule,
+
    for every reader that delivers the octets in pieces of any positive sizes and then io.EOF (with the last
    piece or on the following call).  Readers that fail with another error, or return (0, nil), are outside.
    No proofs in this file. *)
